@@ -143,7 +143,7 @@ def cond_polarity_fix(machine, env):
     return env
 
 
-def gen_case(rng, malformed=False, hist_len=None, may=False, p_unknown=0.1, p_build=0.0):
+def gen_case(rng, malformed=False, hist_len=None, may=False, p_unknown=0.1, p_build=0.0, p_self=0.0):
     g = Gen(rng, malformed=malformed)
     m = g.machine()
     env = cond_polarity_fix(m, g.env())
@@ -156,6 +156,8 @@ def gen_case(rng, malformed=False, hist_len=None, may=False, p_unknown=0.1, p_bu
         k = rng.choice([0, 0, 2]) if not may else rng.choice([0, 1, 1])
         hist.append((k, e, 100 + i))
     out = dict(machine=m, env=env, model=0, init=rng.randrange(ns), history=hist, cls='Machine')
+    if p_self and rng.random() < p_self:
+        out['self_model'] = 1               # the machine is its own model
     if p_build and rng.random() < p_build:
         out['build'] = rng.randint(1, 7)
         if out['build'] & 2:
@@ -425,6 +427,16 @@ def build_machine(case, world, cls=None, model=None, extra_kwargs=None, models=N
                 if not hasattr(mod, name):
                     setattr(mod, name, world.recorder(slot, cb, mod))
             return name
+    elif case.get('self_model') and model is None:
+        # the machine is its own model (the library's default model='self'): callbacks are given by NAME and become
+        # recording attributes of the machine object once it exists
+        pending_self = []
+
+        def R(slot, cb):
+            name = 'cb_%s_%d' % (slot, cb)
+            pending_self.append((name, slot, cb))
+            return name
+        model = tr.Machine.self_literal
     else:
         R = world.recorder
     # construction routes (case['build'], see gen_case): bit 1 = enter/exit callbacks registered afterwards with
@@ -476,6 +488,9 @@ def build_machine(case, world, cls=None, model=None, extra_kwargs=None, models=N
         machine = cls(**kw)
         for name, ent, exi, kws in by_name:
             machine.add_states(name, on_enter=ent, on_exit=exi, **kws)
+    self_mode = model is tr.Machine.self_literal
+    if self_mode:
+        model = machine
     for k_l, (name, ent, exi) in enumerate(later):
         # Machine.__getattr__ provides on_enter_<state>(callback) / on_exit_<state>(callback); the hierarchical classes
         # have on_enter(state, callback) / on_exit(state, callback) as well
@@ -507,6 +522,10 @@ def build_machine(case, world, cls=None, model=None, extra_kwargs=None, models=N
                 before=[R('before', c) for c in t['before']],
                 after=[R('after', c) for c in t['after']],
                 prepare=[R('prepare', c) for c in t['prepare']])
+    if self_mode:
+        for name, slot, cb in pending_self:
+            if name not in machine.__dict__:
+                setattr(machine, name, world.recorder(slot, cb, machine))
     return machine, model
 
 
